@@ -7,7 +7,8 @@ touches only its own registry, a query writes nothing); that every store-mutatin
 when a getter answers from a cached view, every method that changes the registry resets that view, and the two registries are
 bound to containers of their own - never one object under both names (gated); that an
 update replaces only the record's content member, on both back-ends (update-scope); that results tested for success
-can be successes - the tested callee does not return None on every path (dead-success); that every key of the stored
+can be successes - the tested callee does not return None on every path - and that an integer identifier is never tested for
+truthiness, 0 being the first identifier handed out (dead-success); that every key of the stored
 record is fed by the same-named attribute of the request (record-faithful); identifier allocation (ids: id = counter,
 then counter += 1, never derived from the store's size; no other method and nothing outside the store class writes
 the counter); expiry: an object is deleted exactly under `now > timestamp + validity * 1000`, and it is the object the
@@ -501,6 +502,24 @@ def run(ctx):
                                        (", which can return a value" if not dead else
                                         ", which returns None on every path: the success branch is dead and the operation "
                                         "always reports failure"), f"{m.module.rel}:{n.lineno}")
+                # a truthiness test of an identifier: 0 is the first identifier the store hands out, so `if data_object_id:`
+                # reports the first object of an LDM as refused although it was stored
+                if isinstance(n, ast.If) and id(n) in fl.before:
+                    for a_ in sem.atoms(n.test, True):
+                        m_ = re.fullmatch(r"!?truthy\(([A-Za-z_][A-Za-z_0-9]*)\)", a_)
+                        if not m_:
+                            continue
+                        for d in fl.reaching(m_.group(1), fl.before[id(n)]):
+                            if not isinstance(d.value, ast.Call):
+                                continue
+                            tg = [t for t in P.call_targets(m, d.value, count=False) if isinstance(t, FuncInfo)]
+                            ints = [t for t in tg if t.node.returns is not None and
+                                    any(str(x) in ("builtin:int", "int") for x in P.ann_types(t.module, t.node.returns))]
+                            if ints:
+                                ctx.ob("C12.dead-success", m.short(), f"{m_.group(1)}<-{ints[0].name}:truthiness", False,
+                                       f"`{unparse(n.test)}` tests the integer result of {ints[0].short()} for truthiness: identifier 0 (the "
+                                       "first one the store hands out) counts as failure, so a stored object is answered as refused",
+                                       f"{m.module.rel}:{n.lineno}")
     ctx.floor("C12.dead-success", 2)
 
     # ---- the stored record is what was given
